@@ -1376,6 +1376,9 @@ class quantized_bits(base_quantizer.BaseQuantizer):  # pylint: disable=invalid-n
       else:
         # Calculate the scale.
         scale = (K.max(abs(x), axis=axis, keepdims=True) * 2) / levels
+        # An all-zero channel would otherwise get scale 0, i.e. a 0/0 below and
+        # a scale that consumers (e.g. weight export) cannot divide by.
+        scale = tf.math.maximum(scale, K.epsilon())
 
         # If alpha is "auto_po2", then get the "best" po2 scale
         if "po2" in self.alpha:
